@@ -184,6 +184,15 @@ def run_case(spec):
         it0 = Interp(tape=tape)
         it0.allow_defer = True
         it0.run(prog)
+        if spec["i"] % 40 == 13:
+            # a server with more than a thousand requests in flight: 1001-1200 top-level actions are open at the same time
+            from eliot import start_action as _start
+            opened = [_start(action_type="c09:open", n=k) for k in range(rng.randint(1001, 1200))]
+            if rng.random() < 0.5:
+                opened.reverse()
+            for a in opened:
+                a.finish()
+            res["counters"]["streams_with_over_1000_open_tasks"] = 1
     finally:
         remove_destination(rec)
         if bad is not None:
@@ -294,7 +303,12 @@ def run_case(spec):
     res["sets"]["order_classes"].append("interleaving")
 
     exhaustive_tasks = 0
+    bulk_seen = 0
     for u, tmsgs in by_uuid.items():
+        if tmsgs[0].get("action_type") == "c09:open":
+            bulk_seen += 1
+            if bulk_seen > 5:
+                continue  # the thousand identical two-message tasks are judged as a stream above, a few of them one by one
         n = len(tmsgs)
         one = {u: tmsgs}
         if 2 <= n <= exh_limit:
